@@ -536,7 +536,11 @@ class Escape(object):
             if sub:
                 fr = fr or self._frame(func, call, norm(call))
                 for e, it in sub.items():
-                    out.setdefault(e, it.via(fr))
+                    if it.origin == 'boundary' and it.site_text == 'interface summary':
+                        # key an interface summary by the call site that crosses the interface
+                        it = Item(it.exc, 'boundary', it.chain, func.qname, norm(call), it.entry, call)
+                    it2 = it.via(fr)
+                    out.setdefault(it2.ident(), it2)
         return out
 
     def _note_unresolved(self, func, call):
